@@ -57,3 +57,21 @@ Proof.
   rewrite H2 in H2'. inversion H2' as [Hw]. subst w2'.
   exists st1, st2. split; [exact Hc1|]. split; [exact Hc2|]. split; [exact Hs2|exact Hb].
 Qed.
+
+(* idempotence with nothing left to assume: the second run succeeds and changes nothing *)
+From StgV Require Proofs.RepairNoopTwice.
+
+Lemma repair_idempotent_reachable_full :
+  forall lower_s, LowerOK lower_s ->
+  forall t cs w1,
+    forallb in_scope cs = true ->
+    run_repair lower_s (run lower_s (init_world t) cs) = (w1, X0) ->
+    exists w2 st1 st2,
+      run_repair lower_s w1 = (w2, X0)
+      /\ cur_state w1 = Some st1 /\ cur_state w2 = Some st2 /\ same_stack st2 st1
+      /\ w_branch w2 = w_branch w1.
+Proof.
+  intros lower_s L t cs w1 Hs H1.
+  destruct (reachable_side_conditions lower_s L t cs Hs) as [I6 [PD PO]].
+  exact (RepairNoopTwice.repair_idempotent lower_s L _ w1 I6 PD PO H1).
+Qed.
